@@ -94,4 +94,23 @@ example : SafeLabel (.str (Lb.pad8 ['f', 'o', 'o'])) :=
 /-- the derived order of `Label` used for sorting is a strict total order -/
 theorem label_order_strict : Rd.StrictTotal LO.lt := labelOrder_strict
 
+/-! ### a graph with removed slots (`join()` inside a non-tree `merge`, Core/Holes.lean)
+
+`to_xml`/`to_dot` iterate `vertices.iter()`, which skips a removed slot: for the exports such a slot is an absent vertex.
+`blankHoles x` is the graph as they see it. -/
+
+/-- one node per vertex that `keys()` lists — the present vertices whose slot was not removed — and none for any other id -/
+theorem nodes_are_present_vertices_with_removed_slots (x : Sodg.GX Label Hex) (n : Nat) :
+    n ∈ (exportDoc (Sodg.blankHoles x)).map (·.id) ↔ n ∈ Sodg.keysX x := by
+  rw [nodes_are_present_vertices, ← Sodg.keys_blankHoles]
+  unfold Sodg.keys
+  simp
+
+/-- with the edges and data of the vertex as they are -/
+theorem node_content_with_removed_slots (x : Sodg.GX Label Hex) (n : Rd.VNode Label (List UInt8))
+    (h : n ∈ exportDoc (Sodg.blankHoles x)) : n.edges.Perm (Sodg.edg x.g n.id) := by
+  have := (node_content (Sodg.blankHoles x) n h).2.2.1
+  rw [(Sodg.view_blankHoles x n.id).1] at this
+  exact this
+
 end Props.C18
